@@ -1007,10 +1007,19 @@ package originium
 // commit after a reopen gets a timestamp no stored version has.
 //@ ghost OpenWalMax Int
 //@ ghost OpenDbMax Int
+//@ ghost OpMt Int
+//@ ghost OpLm Int
 //@ func originium.Open -> db, err
 //@ props C15 C12 C02
-//@ thin ^makechan|^post
+//@ thin ^makechan|^post|^assert
 //@ assigns writeset
+// glue: the memtable and the level manager that were recovered are the ones installed in the DB
+//@ after_call originium.newMemtable#0: ghost OpMt = ref(result)
+//@ after_call originium.newLevelManager#0: ghost OpLm = ref(result)
+//@ before_call originium.newLevelManager#0: assert arg0 == db
+//@ before_call (*originium.memtable).recover#0: assert ref(arg0) == OpMt
+//@ before_call (*originium.levelManager).recover#0: assert ref(arg0) == OpLm
+//@ ensures db != nil ==> (ref(db.memtable) == OpMt && ref(db.manager) == OpLm)
 //@ after_call (*originium.memtable).recover#0: ghost OpenWalMax = result
 //@ after_call (*originium.levelManager).recover#0: ghost OpenDbMax = result
 //@ ensures db != nil ==> (db.oracle != nil && OpenWalMax >= RecMaxSeen && OpenDbMax >= TabFloor && OpenWalMax >= 0 && OpenDbMax >= 0)
